@@ -1006,6 +1006,7 @@ class SymWalker:
                     body_state.reach = f_and(s.reach, cond)
                 n_exits, n_eff = len(self.exits), len(self.effects)
                 these = self.block(st.body, [body_state]) if body_state.reach is not False else []
+                these = these + getattr(self.loop_stack[-1], "continued", [])
                 outs += these
                 self.loop_stack.pop()
                 post = State(env0, s.reach)
@@ -1034,6 +1035,8 @@ class SymWalker:
                 return []
             for s in states:
                 self._effect("break" if isinstance(st, ast.Break) else "continue", st, s.reach)
+            if isinstance(st, ast.Continue) and top is not None:
+                top.continued = getattr(top, "continued", []) + list(states)      # they reach the end of the iteration
             return []
         if isinstance(st, ast.Try):
             assigned = self._assigned(st.body)
